@@ -144,9 +144,9 @@ class PerformedPart(object):
         """Number of tracks"""
         return len(
             set(
-                [n.get("track", -1) for n in self.notes]
-                + [c.get("track", -1) for c in self.controls]
-                + [p.get("track", -1) for p in self.programs]
+                [n.get("track", 0) for n in self.notes]
+                + [c.get("track", 0) for c in self.controls]
+                + [p.get("track", 0) for p in self.programs]
             )
         )
 
@@ -591,14 +591,14 @@ class Performance(object):
         """
         n_tracks = len(
             set(
-                [(i, n.get("track", -1)) for i, pp in enumerate(self) for n in pp.notes]
+                [(i, n.get("track", 0)) for i, pp in enumerate(self) for n in pp.notes]
                 + [
-                    (i, c.get("track", -1))
+                    (i, c.get("track", 0))
                     for i, pp in enumerate(self)
                     for c in pp.controls
                 ]
                 + [
-                    (i, p.get("track", -1))
+                    (i, p.get("track", 0))
                     for i, pp in enumerate(self)
                     for p in pp.programs
                 ]
